@@ -283,7 +283,12 @@ def gen_admin_record(rng, **kwargs):
         return gen_status_report(rng, **kwargs)
     # record types not bound by the implementation (the content must be a non-empty/truthy item or an array:
     # see check_C02 lax stream for [type, 0]-style contents)
-    return dict(type=rng.choice([2, 3, 4, 23, 24, 255, 65536]), content=_gen_content(rng))
+    content = _gen_content(rng)
+    if isinstance(content, dict):
+        # a bare byte string as record content is (mis)read by the implementation as *encoded* CBOR
+        # (check_C02 lax stream: "administrative record of unbound type with byte-string content")
+        content = [content]
+    return dict(type=rng.choice([2, 3, 4, 23, 24, 255, 65536]), content=content)
 
 
 # --------------------------------------------------------------------------- block-type-specific data
@@ -701,12 +706,12 @@ def admin_of_real(blk):
 # --------------------------------------------------------------------------- Coq terms (Model.Bundle)
 
 def _coq_bytes(data):
+    ''' Octets as a plain list literal (Lib.Bytes.unhex costs a long division per octet of a number of
+    8*len bits - cubic in the length - so it is not used here). '''
     data = bytes(data)
     if len(data) == 0:
         return '(@nil N)'
-    if len(data) <= 8:
-        return '[' + '; '.join(str(b) for b in data) + ']%N'
-    return '(unhex %d 0x%s%%N)' % (len(data), data.hex())
+    return '[' + ';'.join(str(b) for b in data) + ']%N'
 
 
 def coq_eid(eid):
